@@ -4,9 +4,10 @@ from __future__ import annotations
 from hypothesis import strategies as st
 
 from vf.core import CaseResult, Ctx, Violation, hyp_run
-from vf.gen.wfspec import atoms_of, wfspecs
+from vf.gen.wfspec import atoms_of, rec_points, wfspecs
 from vf.props import c01
-from vf.sim.drive import SCase, outcome_maps, run_async, schedules
+from vf.sim.drive import (
+    SCase, heard_result_of, outcome_maps, run_async, schedules)
 from vf.sim.model import Model, atom_target
 
 PROP_ID = 'C46'
@@ -15,52 +16,204 @@ BUDGET = {'quick': 450, 'thorough': 12000}
 MANIFEST = {
     'engine': 'S',
     'technique': 'model-based PBT on the stepped scheduler: warm-start / '
-                 'start-task runs vs. reference closure from the start',
+                 'start-task runs vs. reference closure from the start; '
+                 'warm starts with trigger commands (flow merges) vs. the '
+                 'pre-start clause',
 }
 RULE = (
-    'Generated workflow (C01 domain) started either with --start-cycle-point '
-    'in (ICP, FCP] (warm start) or with 1-2 --start-task instances drawn '
-    'from the model instances; random outcomes and schedules.  Warm start '
-    'oracle: no job launched at a point before the start point; every launch '
-    'has its model prerequisite true with atoms before the start point '
-    'counted satisfied; when every finished task is complete the launched '
-    'set equals the model closure computed from the start point and the '
-    'scheduler shuts down by itself.  Start-task oracle: every start task is '
-    'launched; every launched instance is a start task or a graph descendant '
+    'Generated workflow (C01 domain; the whole cycle-point range is shifted '
+    'by a drawn amount so that integer cycle points may have different digit '
+    'counts: 5..14, 8..13, 97..102 as well as 1..6) started in one of three '
+    'modes.  (1) warm: --start-cycle-point in (ICP, FCP]; random outcomes '
+    'and schedules.  Oracle: no job launched at a point before the start '
+    'point; every launch has its model prerequisite true with atoms before '
+    'the start point counted satisfied; when every finished task is complete '
+    'the launched set equals the model closure computed from the start point '
+    'and the scheduler shuts down by itself.  (2) tasks: 1-3 --start-task '
+    'instances drawn from the model instances (any points, so several start '
+    'tasks may lie in different cycles whose string order differs from their '
+    'point order; in half of the cases the start tasks are drawn one per '
+    'cycle point).  Oracle: every start task is '
+    'launched (unless it has a trigger on an instance beyond the final '
+    'cycle point: such a task is never spawned, by design); every '
+    'launched instance is a start task or a graph descendant '
     'of one (reachable through trigger edges, or a later parentless instance '
     'of a reached task, which the scheduler auto-spawns; parentless is taken '
     'relative to the earliest start-task point, before which dependencies '
     'count as satisfied); nothing before the earliest '
-    'start task point that is not a descendant runs.  Non-trivial = warm '
+    'start task point that is not a descendant runs.  (3) warm-trig: warm '
+    'start of a workflow in which future triggers (a[+Pn] => b) are frequent '
+    '(drawn with higher odds, and in 3 of 4 cases a fresh consumer task is '
+    'attached to a prerequisite-free task through a future or an absolute '
+    'trigger) so that tasks at/after the start point have graph children '
+    'before it, with >= 1 `cylc trigger` commands '
+    '(--flow unset / new / 2 / 1,2; target = a pooled task or any model '
+    'instance, before or after the start point, with extra weight on '
+    'instances that have a graph child before the start point) interleaved '
+    'in the schedule, '
+    'which re-run tasks, start new flows and merge flows into flow 1.  '
+    'Oracle (first clause of the statement only): a job launched at a point '
+    'before the start point whose task proxy belongs to the original flow '
+    '(flow 1 among its flow numbers at launch) must be the target of an '
+    'earlier trigger command.  Non-trivial = warm '
     'start with an inter-cycle trigger crossing the start point, or start '
-    'tasks that are not the whole first cycle; distinct by the case.')
+    'tasks that are not the whole first cycle, or (warm-trig) a trigger '
+    'command was applied and >= 2 jobs ran; distinct by the case.')
 ASSUMPTIONS = [
-    'No manual triggering in this profile.',
+    'No manual commands in the warm and tasks modes; in warm-trig mode only '
+    '`cylc trigger`, and there only the pre-start clause is judged (manual '
+    'triggering invalidates the closure comparison).',
+    'warm-trig: a pre-start instance that runs only in flows that do not '
+    'include flow 1 (downstream of a manually started new flow) is counted '
+    '(class pre-start-run-in-new-flow-only) but not judged: cylc treats '
+    'pre-start tasks as already run in flow 1 only, and the statement\'s '
+    '"unless manually triggered" is read to cover what a manually started '
+    'flow leads to.',
+    'warm mode: a plain missing-run of the C01 closure comparison that '
+    'consists only of parentless instances which the restated '
+    'TaskDef.next_point_parentless chain cannot reach behind a never-spawned '
+    'instance with absolute + pre-start parents (recorded finding), plus '
+    'what only they lead to, is reported under a signature of its own '
+    '(...parentless-point-after-unspawned-absolute-plus-preinitial-point); '
+    'nothing else is re-signed.',
     'Start-task mode checks containment (start tasks subset of launched '
     'subset of descendants), the part the statement fixes; which descendants '
     'are runnable depends on off-flow prerequisites and is not asserted.',
 ] + c01.ASSUMPTIONS[:3]
 
+# amounts the cycle-point range is shifted by (ICP = 1 + shift): the range
+# then straddles 9/10 or 99/100, where the string order of integer points
+# differs from their numeric order
+SHIFTS = [0, 0, 0, 0, 5, 6, 7, 8, 8, 96, 97]
+# start-task mode: mostly ranges in which several start tasks in different
+# cycles can have points of different width
+SHIFTS_TASKS = [0, 5, 6, 6, 7, 7, 7, 8, 96, 97]
+TRIG_FLOWS = [[], ['new'], ['new'], ['2'], ['1', '2']]
+
+
+def shift_spec(spec, k):
+    """Move every cycle point of the AST by k (in place)."""
+    if not k:
+        return spec
+    spec['icp'] += k
+    spec['fcp'] += k
+    for sec in spec['sections']:
+        rec = sec['rec']
+        if rec['kind'] == 'R1':
+            rec['at'] += k
+        elif rec.get('excl'):
+            rec['excl'] = [e + k for e in rec['excl']]
+        for ln in sec['lines']:
+            for a in atoms_of(ln['lhs']):
+                if a.get('abs') is not None:
+                    a['abs'] += k
+    return spec
+
+
+def add_backward_child(draw, spec):
+    """Post-process a drawn AST (before shifting): a fresh consumer task
+    `zc` in a section of its own, downstream of an existing task without
+    prerequisites (a fresh `zs` if there is none) through a future trigger
+    `src[+Pn] => zc` or an absolute trigger `src[<pt>] => zc` - so that
+    instances of src have graph children at earlier cycle points."""
+    from vf.sim.model import valid_points
+    has_pre = {r for sec in spec['sections'] for ln in sec['lines']
+               if ln['lhs'] is not None for r in ln['rhs']}
+    valid = valid_points(spec)
+    cands = [t for t in spec['tasks'] if t not in has_pre and valid[t]]
+    blank = {'succ': False, 'submit': False, 'fail_required': False,
+             'custom': {}}
+    kind = draw(st.sampled_from(['future', 'future', 'abs']))
+    if cands:
+        src = draw(st.sampled_from(cands))
+    else:
+        src, kind = 'zs', 'future'
+        spec['tasks'].append(src)
+        spec['opt'][src] = dict(blank, custom={})
+    spec['tasks'].append('zc')
+    spec['opt']['zc'] = dict(blank, custom={})
+    atom = {'t': src, 'off': None, 'abs': None, 'out': 'succeeded',
+            'implicit': True, 'longform': False}
+    if kind == 'future':
+        step = draw(st.sampled_from([1, 1, 2]))
+        atom['off'] = step * draw(st.sampled_from([1, 1, 2]))
+        # src joins this section's sequence, so the instance the offset
+        # points at is on-sequence (or beyond the final point)
+        lines = [{'lhs': None, 'rhs': [src]}, {'lhs': atom, 'rhs': ['zc']}]
+    else:
+        step = 1
+        atom['abs'] = draw(st.sampled_from(sorted(valid[src])))
+        atom['form'] = draw(st.integers(0, 1))
+        lines = [{'lhs': atom, 'rhs': ['zc']}]
+    spec['sections'].append({
+        'rec': {'kind': 'P', 'step': step, 'off': 0, 'excl': []},
+        'lines': lines})
+    return spec
+
+
+@st.composite
+def trig_schedules(draw, spec, start, max_len=30):
+    """Schedule with >= 1 `cylc trigger` step.  Targets (Driver.pick): even
+    n = n/2-th pooled task, odd n = n//2-th model instance; instances at or
+    after the start point that have a graph child before it get extra
+    weight."""
+    model = Model(spec)
+    insts = model.instances()
+    parents = pre_start_children(spec, model, start)
+    ns = st.integers(0, 15)
+    if parents:
+        ns = st.one_of(ns, st.sampled_from(
+            sorted(2 * insts.index(i) + 1 for i in parents)))
+    plain = st.tuples(st.sampled_from(['loop', 'loop', 'ret', 'adv', 'del']),
+                      st.integers(0, 7)).map(list)
+    trig = st.tuples(st.just('trigger'), ns,
+                     st.sampled_from(TRIG_FLOWS)).map(list)
+    head = draw(st.lists(plain, max_size=6))
+    tail = draw(st.lists(st.one_of(plain, plain, plain, trig),
+                         max_size=max_len - 7))
+    return head + [draw(trig)] + tail
+
 
 @st.composite
 def cases(draw):
-    spec = draw(wfspecs({'max_tasks': 5, 'max_fcp': 6}))
+    mode = draw(st.sampled_from(
+        ['tasks', 'warm-trig', 'warm', 'tasks', 'warm-trig', 'warm', 'warm']))
+    profile = {'max_tasks': 5, 'max_fcp': 6}
+    if mode == 'warm-trig':
+        profile['future_odds'] = 1
+    spec = draw(wfspecs(profile))
+    if mode == 'warm-trig' and draw(st.integers(0, 3)):
+        spec = add_backward_child(draw, spec)
+    spec = shift_spec(spec, draw(st.sampled_from(
+        SHIFTS_TASKS if mode == 'tasks' else SHIFTS)))
     outcomes = draw(outcome_maps(spec))
-    sched = draw(schedules(30))
-    mode = draw(st.sampled_from(['warm', 'warm', 'tasks']))
     model = Model(spec)
     start = None
     tasks = None
-    if mode == 'warm':
+    if mode != 'tasks':
         start = draw(st.integers(spec['icp'] + 1, spec['fcp']))
     else:
         insts = model.instances()
         if not insts:
             mode, start = 'warm', spec['fcp']
         else:
-            k = draw(st.integers(1, min(2, len(insts))))
-            tasks = [list(i) for i in draw(st.lists(
-                st.sampled_from(insts), min_size=k, max_size=k, unique=True))]
+            k = min(draw(st.sampled_from([1, 2, 2, 3])), len(insts))
+            if draw(st.booleans()):
+                # start tasks in k different cycles where possible
+                pts = sorted({p for (_t, p) in insts})
+                chosen = draw(st.lists(st.sampled_from(pts), unique=True,
+                                       min_size=min(k, len(pts)),
+                                       max_size=min(k, len(pts))))
+                tasks = [list(draw(st.sampled_from(
+                    [i for i in insts if i[1] == p]))) for p in chosen]
+            else:
+                tasks = [list(i) for i in draw(st.lists(
+                    st.sampled_from(insts), min_size=k, max_size=k,
+                    unique=True))]
+    if mode == 'warm-trig':
+        sched = draw(trig_schedules(spec, start, 30))
+    else:
+        sched = draw(schedules(30))
     return {'spec': spec, 'outcomes': outcomes, 'schedule': sched,
             'mode': mode, 'start': start, 'start_tasks': tasks}
 
@@ -98,7 +251,7 @@ async def _check(case, ctx: Ctx) -> CaseResult:
     spec, outcomes = case['spec'], case['outcomes']
     from vf.sim.drive import point_maps
     to_int, to_str = point_maps(spec)
-    if case['mode'] == 'warm':
+    if case['mode'] in ('warm', 'warm-trig'):
         opts = {'startcp': to_str[case['start']]}
     else:
         opts = {'starttask': [f'{to_str[p]}/{t}'
@@ -113,6 +266,14 @@ async def _check(case, ctx: Ctx) -> CaseResult:
         classes = [case['mode']]
         viol = []
         launched = {(n, to_int.get(c)) for (c, n, _s) in sim.journal}
+        if spec['mode'] == 'integer':
+            widths = {len(to_str[p]) for p in range(spec['icp'],
+                                                    spec['fcp'] + 1)}
+            if len(widths) > 1:
+                classes.append('integer-points-of-different-width')
+        if case['mode'] == 'warm-trig':
+            return _check_warm_trig(case, sc, classes, launched, to_int,
+                                    to_str, opts)
         if case['mode'] == 'warm':
             start = case['start']
             model = Model(spec, start=start)
@@ -125,6 +286,10 @@ async def _check(case, ctx: Ctx) -> CaseResult:
                         f'{start}'))
             viol += c01.oracle(spec, outcomes, model, sc.drv, sc.shut,
                                sc.quiescent, classes, prop='C46')
+            result_of, _unheard = heard_result_of(sim, spec, outcomes,
+                                                  to_str)
+            viol = resign_chain_break(viol, spec, model, launched,
+                                      result_of)
             crossing = any(
                 (a.get('off') or 0) < 0
                 for sec in spec['sections'] for ln in sec['lines']
@@ -142,6 +307,14 @@ async def _check(case, ctx: Ctx) -> CaseResult:
             smodel = Model(spec, start=min(p for (_t, p) in roots))
             reach = descendants(smodel, roots)
             for r in sorted(roots - launched):
+                # a start task with a (future) trigger on an instance beyond
+                # the final cycle point can never run: the scheduler refuses
+                # to spawn it ("a prerequisite is beyond the workflow stop
+                # point"), by design
+                if any(atom_target(a, r[1]) > spec['fcp']
+                       for tr in smodel.trees_at(*r) for a in atoms_of(tr)):
+                    classes.append('start-task-depends-beyond-final-point')
+                    continue
                 if sc.shut or sc.quiescent:
                     viol.append(Violation(
                         'C46:start-task-not-run',
@@ -153,12 +326,186 @@ async def _check(case, ctx: Ctx) -> CaseResult:
                     f'descendant of {sorted(roots)}'))
             first = {i for i in sc.model.instances() if i[1] == spec['icp']}
             nontrivial = roots != first and len(launched) >= 2
+            pts = sorted({p for (_t, p) in roots})
+            if len(pts) > 1:
+                classes.append('start-tasks-in-different-cycles')
+                if spec['mode'] == 'integer' and min(
+                        pts, key=lambda p: to_str[p]) != pts[0]:
+                    classes.append('start-task-points-string-order-differs')
         uniq = {}
         for v in viol:
             uniq.setdefault(v.sig, v)
         return CaseResult(list(uniq.values()), nontrivial, sorted(set(classes)),
                           inconclusive=sc.inconclusive,
                           info={'flow': sc.drv.flow_text, 'opts': opts})
+
+
+MIXED = 'C46:missing-run:absolute-plus-preinitial-parents-not-first-child'
+CHAIN_AFTER_MIXED = ('C46:missing-run:parentless-point-after-unspawned-'
+                     'absolute-plus-preinitial-point')
+
+
+def _atoms_at(model, t, p):
+    return [a for tr in model.trees_at(t, p) for a in atoms_of(tr)]
+
+
+def cylc_parentless(model: Model, t, p) -> bool:
+    """TaskDef.is_parentless(point, cutoff=start point) restated over the
+    AST: no parents, all parent points before the start point, or only
+    absolute triggers (a mix of absolute and pre-start parents is none of
+    these - the recorded finding MIXED)."""
+    atoms = _atoms_at(model, t, p)
+    return (not atoms
+            or all(atom_target(a, p) < model.start for a in atoms)
+            or all(a.get('abs') is not None for a in atoms))
+
+
+def auto_spawn_chain(spec, model: Model, t):
+    """Points of task t reached by the scheduler's parentless auto-spawning
+    from the start point: TaskDef.next_point_parentless takes, per sequence
+    of t, the next point and keeps it only if t is parentless there."""
+    seqs = []
+    for sec in spec['sections']:
+        if any(t in ln['rhs'] or any(
+                a['t'] == t and not a.get('off') and a.get('abs') is None
+                for a in atoms_of(ln['lhs'])) for ln in sec['lines']):
+            seqs.append(sorted(rec_points(sec['rec'], spec['icp'],
+                                          spec['fcp'])))
+    reach, cur = set(), None
+    while True:
+        cands = []
+        for pts in seqs:
+            nxt = next((q for q in pts if (
+                q >= model.start if cur is None else q > cur)), None)
+            if nxt is not None and cylc_parentless(model, t, nxt):
+                cands.append(nxt)
+        if not cands:
+            return reach
+        cur = min(cands)
+        reach.add(cur)
+
+
+def resign_chain_break(viol, spec, model: Model, launched, result_of):
+    """The C01 closure comparison takes the never-spawned instances of the
+    recorded finding MIXED (absolute + pre-start parents) out of the
+    reference, but not the later parentless instances of the same task, which
+    the scheduler reaches only by auto-spawning from the previous instance.
+    Take those out as well (with everything only they lead to): if the
+    launched set then equals the reference, the plain missing-run gets a
+    signature of its own."""
+    import ast
+    import re
+    if not any(v.sig == MIXED for v in viol):
+        return viol
+
+    def explained(t, p):
+        if not (model.parentless(t, p) and cylc_parentless(model, t, p)):
+            return False
+        if p in auto_spawn_chain(spec, model, t):
+            return False
+        return any(
+            model.start <= q < p and (t, q) not in launched
+            and model.parentless(t, q) and not cylc_parentless(model, t, q)
+            for q in model.valid[t])
+
+    out = []
+    for v in viol:
+        m = re.search(r'never launched: (\[.*?\]) \(shutdown=.*known-shape '
+                      r'instances (\[.*?\])\)$', v.detail) \
+            if v.sig == 'C46:missing-run' else None
+        if m:
+            missing = {tuple(x) for x in ast.literal_eval(m.group(1))}
+            never = {tuple(x) for x in ast.literal_eval(m.group(2))}
+            for _round in range(12):
+                more = {i for i in missing if explained(*i)}
+                if not more:
+                    break
+                never |= more
+                ran, _done, _amb = model.closure(result_of, never=never)
+                missing = ran - launched
+                if not missing:
+                    if not (launched - ran):
+                        v = Violation(CHAIN_AFTER_MIXED, v.detail)
+                    break
+        out.append(v)
+    return out
+
+
+def pre_start_children(spec, model: Model, start):
+    """{(parent task, parent point)} at/after the start point with a graph
+    child (through a future or absolute trigger) before the start point."""
+    out = set()
+    for (t, p) in model.instances():
+        if p >= start:
+            continue
+        for tr in model.trees_at(t, p):
+            for a in atoms_of(tr):
+                q = atom_target(a, p)
+                if q >= start and model.is_valid(a['t'], q):
+                    out.add((a['t'], q))
+    return out
+
+
+def _check_warm_trig(case, sc, classes, launched, to_int, to_str, opts):
+    """Warm start with `cylc trigger` commands in the schedule: only the
+    pre-start clause is judged."""
+    spec, start = case['spec'], case['start']
+    sim = sc.sim
+    viol = list(sc.crash_violations('C46'))
+    parents = pre_start_children(spec, sc.model, start)
+    if parents:
+        classes.append('post-start-task-with-pre-start-child')
+    triggered = set()       # ids targeted by a trigger command so far
+    applied = 0
+    merged = set()          # instances whose flow 1 was merged with another
+    for ev in sim.trace:
+        if ev['k'] == 'cmd' and ev['cmd'] == 'trigger':
+            triggered.add(ev['task'])
+            if ev['err'] is None:
+                applied += 1
+            cyc, name = ev['task'].split('/', 1)
+            p = to_int.get(cyc)
+            classes.append('trigger-flow:' + (','.join(ev['flow']) or 'unset'))
+            classes.append('trigger-target-before-start-point'
+                           if p is not None and p < start
+                           else 'trigger-target-at-or-after-start-point')
+            before = {(t['cycle'], t['name']): t for t in ev['before']}
+            for t in ev['after']:
+                b = before.get((t['cycle'], t['name']))
+                if (b is not None and 1 in b['flows']
+                        and len(t['flows']) > len(b['flows'])):
+                    classes.append('trigger-merged-a-flow-into-flow-1')
+                    merged.add((t['name'], to_int.get(t['cycle'])))
+        elif ev['k'] == 'launch':
+            p = to_int.get(ev['cycle'])
+            if p is None or p >= start:
+                continue
+            ident = f'{ev["cycle"]}/{ev["name"]}'
+            if ident in triggered:
+                classes.append('pre-start-run-manually-triggered')
+                continue
+            flows = ev.get('flows')
+            if flows is None:
+                classes.append('pre-start-run-flows-unknown')
+                continue
+            if 1 not in flows:
+                classes.append('pre-start-run-in-new-flow-only')
+                continue
+            viol.append(Violation(
+                'C46:launched-before-start-point',
+                f'{ident} launched in flows {flows} (original flow 1 among '
+                f'them) although the start point is {to_str[start]} and no '
+                f'trigger command targeted it (triggered: '
+                f'{sorted(triggered)})'))
+    if merged & parents:
+        classes.append('merged-flow-on-parent-of-pre-start-child')
+    uniq = {}
+    for v in viol:
+        uniq.setdefault(v.sig, v)
+    return CaseResult(list(uniq.values()),
+                      applied > 0 and len(launched) >= 2,
+                      sorted(set(classes)), inconclusive=sc.inconclusive,
+                      info={'flow': sc.drv.flow_text, 'opts': opts})
 
 
 def run_shard(ctx: Ctx):
